@@ -153,6 +153,7 @@ type scenario struct {
 	layout          string   // path of the signed layout to use ("" = the honest one)
 	keys            []string // layout key files ("" = the signers' public keys)
 	keySep          bool     // pass the keys as repeated -k instead of one comma separated value
+	rawKeyArg       *string  // the literal value of --layout-keys (keys then lists what a faithful reading of it names)
 	noInspect       bool     // also demand that nothing was verified: no inspection ran (no <inspection>.link in the cwd)
 	what            string   // detail for the case description
 	mutProd         func(dir string)
@@ -325,6 +326,18 @@ func (w *world) scenarios(signed string) []scenario {
 	if cfg.Norm {
 		sc = append(sc, scenario{name: "tamper:verify-without-normalize-line-endings", certain: "nz", noNorm: true})
 	}
+	// verify/no-layout-keys: spellings of --layout-keys that name no usable key at all end the command
+	// non-zero without verifying anything, whatever the layout
+	empty, comma, blankKey := "", ",", " "
+	unsignedLayout := filepath.Join(w.root, "layouts", "root.unsigned.layout")
+	sc = append(sc,
+		scenario{name: "no-layout-keys:empty-value", certain: "nz", noInspect: true, rawKeyArg: &empty, keys: []string{}},
+		scenario{name: "no-layout-keys:comma", certain: "nz", noInspect: true, rawKeyArg: &comma, keys: []string{"", ""}},
+		scenario{name: "no-layout-keys:blank", certain: "nz", noInspect: true, rawKeyArg: &blankKey, keys: []string{" "}},
+		scenario{name: "no-layout-keys:empty-value-unsigned-layout", certain: "nz", noInspect: true, rawKeyArg: &empty, keys: []string{}, layout: unsignedLayout},
+		scenario{name: "no-layout-keys:empty-value-altered-layout", certain: "nz", noInspect: true, rawKeyArg: &empty, keys: []string{},
+			mutLayout: func(p string) { editMetadata(p, func(pl map[string]any) { pl["readme"] = "altered" }) }},
+		scenario{name: "no-layout-keys:empty-value-repeated-flag", certain: "nz", noInspect: true, keySep: true, keys: []string{""}})
 	// an --intermediate-certs file that cannot be read ends the command: nothing is verified
 	sc = append(sc, scenario{name: "tamper:intermediate-unreadable-missing", certain: "nz", noInspect: true, inter: []string{filepath.Join(kdir, "no-such-intermediate.pem")}})
 	sc = append(sc, scenario{name: "tamper:intermediate-unreadable-directory", certain: "nz", noInspect: true, inter: []string{kdir}})
@@ -507,7 +520,11 @@ func (w *world) verifyOne(i int, sc scenario, signed, final, links string) {
 				argv = append(argv, "-k", k)
 			}
 		} else {
-			argv = append(argv, "--layout-keys", strings.Join(keys, ","))
+			raw := strings.Join(keys, ",")
+			if sc.rawKeyArg != nil {
+				raw = *sc.rawKeyArg
+			}
+			argv = append(argv, "--layout-keys", raw)
 		}
 		if s.linkArg != "" {
 			argv = append(argv, "--link-dir", s.linkArg)
